@@ -1,4 +1,5 @@
 """C10 - well-typed scripts and built-ins cannot kill the host process."""
+import re
 from .. import mir, hir
 from ..callgraph import CallGraph
 from ..facts import relfile
@@ -93,6 +94,87 @@ K2_OK = {
 }
 
 
+def _norm_key(k):
+    return re.sub(r"[&*]|\.\&|\.\*", "", k or "").replace("..", ".").strip(".")
+
+
+def _index_drawn_from_len_range(F, b, defs, get_call):
+    """`x.get(i).unwrap()` cannot fail when `i` is drawn from `0..x.len()` OF THE SAME `x`: either by a loop over that range in this
+    body, or - in a closure - because the closure is handed to an iterator adaptor on such a range in the enclosing function."""
+    if len(get_call["args"]) < 2 or not mir.is_place_op(get_call["args"][1]) or not mir.is_place_op(get_call["args"][0]):
+        return False
+    idx = get_call["args"][1][1]
+    root, _path = mir.origin(b, defs, idx)
+    recv_key = _norm_key(mir.origin_key(b, defs, get_call["args"][0][1]))
+
+    def len_receivers(bb, dd, local):
+        """origin keys of the receivers of the `len` calls a value derives from; None if arithmetic is involved"""
+        out = []
+        for x in mir.back_calls(bb, dd, local):
+            t = bb.blocks[x]["term"]
+            n = hir.last(mir.callee_def(t) or "")
+            if n in ("add", "sub", "checked_add", "saturating_add", "wrapping_add", "max", "min"):
+                return None
+            if n == "len" and t["args"] and mir.is_place_op(t["args"][0]):
+                out.append(_norm_key(mir.origin_key(bb, dd, t["args"][0][1])))
+        return out
+    if root.startswith("call:") and hir.last(root[5:]) == "next" and "Range" in root:
+        lr = len_receivers(b, defs, idx[0])
+        return bool(lr) and all(k == recv_key for k in lr)
+    if root.startswith("arg") and "{closure" in b.path:
+        parent = F.body(b.path.rsplit("::{closure", 1)[0])
+        if parent is None or not parent.mir:
+            return False
+        pdefs = mir.Defs(parent)
+        for blk in parent.blocks:
+            for st in blk["stmts"]:
+                if st["k"] == "assign" and st["rv"]["k"] == "agg" and st["rv"].get("ak") == "closure" and st["rv"].get("def") == b.path:
+                    cl = st["p"][0]
+                    # the receiver inside the closure is a captured variable: which value of the parent is it?
+                    def upvar_index(local, depth=0):
+                        """which captured variable (index into the closure's environment) a local of the closure body is read from"""
+                        for d in defs.whole_defs(local):
+                            if d[2] != "assign" or depth > 8:
+                                continue
+                            rv = d[3]["rv"]
+                            pl = rv.get("p") if rv["k"] in ("ref", "rawptr") else (rv["o"][1] if rv["k"] == "use" and mir.is_place_op(rv["o"]) else None)
+                            if pl is None:
+                                continue
+                            if pl[0] == 1:
+                                for x in pl[1:]:
+                                    if isinstance(x, list) and x[0] == "f":
+                                        return x[1]
+                            else:
+                                u = upvar_index(pl[0], depth + 1)
+                                if u is not None:
+                                    return u
+                        return None
+                    ui = upvar_index(get_call["args"][0][1][0])
+                    if ui is None or ui >= len(st["rv"]["ops"]) or not mir.is_place_op(st["rv"]["ops"][ui]):
+                        return False
+                    precv = _norm_key(mir.origin_key(parent, pdefs, st["rv"]["ops"][ui][1]))
+                    for bi, t in mir.calls(parent):
+                        if any(mir.is_place_op(a) and (a[1][0] == cl or cl in {x for d in pdefs.whole_defs(a[1][0]) if d[2] == "assign" for x in mir.rv_locals(d[3]["rv"])}) for a in t["args"][1:]):
+                            recv = t["args"][0]
+                            g = " ".join(t["f"].get("gargs") or [])
+                            if mir.is_place_op(recv) and "Range" in g:
+                                lr = len_receivers(parent, pdefs, recv[1][0])
+                                if lr and all(k == precv for k in lr):
+                                    return True
+    return False
+
+
+def _capacity_arithmetic(b, defs, t):
+    """Checked arithmetic on a list's own sizes (`len`, `capacity`, element size): its overflow is the documented resource limit
+    (memory exhaustion), not a value-dependent panic."""
+    keys = []
+    for a in t["args"]:
+        if mir.is_place_op(a):
+            keys.append(mir.origin_key(b, defs, a[1]))
+    joined = " ".join(keys)
+    return any(x in joined for x in (".len", ".capacity", "size()", "len()", "capacity()"))
+
+
 def rule_k2(F):
     r = RuleResult("C10.K2", "no unreviewed panic site in the bodies of registered built-ins and their crate-local callees", floor=30)
     regs = registrations(F)
@@ -145,8 +227,17 @@ def rule_k2(F):
                     if defs is None:
                         defs = mir.Defs(b)
                     ch = mir.value_chain(b, defs, t["args"][0][1][0])
-                    prods = [hir.last(c[1]) for c in ch if hir.last(c[1]) not in ("branch", "map_err", "from_residual", "deref", "as_ref", "ok")]
-                    producer = prods[0] if prods else "-"
+                    prods = [(hir.last(c[1]), c[0]) for c in ch if hir.last(c[1]) not in ("branch", "map_err", "from_residual", "deref", "as_ref", "ok")]
+                    producer = prods[0][0] if prods else "-"
+                    # decided rather than listed: an index drawn from 0..len, and overflow of the list's own size arithmetic
+                    if prods and producer == "get" and "value::list" in (mir.callee(b.blocks[prods[0][1]]["term"]) or "") \
+                            and _index_drawn_from_len_range(F, b, defs, b.blocks[prods[0][1]]["term"]):
+                        r.inst("%s|unwrap|get (index drawn from 0..len)" % label, {"fn": label, "line": t["line"], "kind": kind, "producer": producer, "decided": "index drawn from 0..len()"})
+                        continue
+                    if prods and producer in ("checked_add", "checked_mul", "checked_next_power_of_two") and "value::list" in p \
+                            and _capacity_arithmetic(b, defs, b.blocks[prods[0][1]]["term"]):
+                        r.inst("%s|unwrap|%s (size arithmetic)" % (label, producer), {"fn": label, "line": t["line"], "kind": kind, "producer": producer, "decided": "overflow of the list's own size arithmetic = memory exhaustion"})
+                        continue
             if kind is None:
                 continue
             r.inst("%s|%s|%s" % (label, kind, producer), {"fn": label, "line": t["line"], "kind": kind, "producer": producer})
